@@ -479,6 +479,19 @@ def b_type(eng, args, kwargs, fr, node):
     raise_unsupported('type() of %r' % (v,))
 
 
+def b_sum(eng, args, kwargs, fr, node):
+    """sum(...) of ints: an unconstrained integer (only ever used for log messages in the code under contract)"""
+    return eng.fresh(INT, 'sum')
+
+
+def b_super(eng, args, kwargs, fr, node):
+    """super(Class, self): attribute lookups start at Class's base (single inheritance inside one module)"""
+    from .engine import PyObj
+    if len(args) == 2 and isinstance(args[0], PyObj) and args[0].kind == 'class':
+        return PyObj('super', (args[0].payload, args[1]))
+    raise_unsupported('super() in this form')
+
+
 def b_octets(eng, args, kwargs, fr, node):
     """contract language: the octets a key stands for - UTF-8 of a str, the content of bytes / bytearray"""
     v = args[0]
@@ -746,7 +759,7 @@ BUILTIN_FUNCS = {
     'int': None,
     'unpack_tuple': b_unpack_tuple, 'calcsize': b_calcsize,
     'len': b_len, 'isinstance': b_isinstance, 'min': b_min, 'max': b_max, 'abs': b_abs, 'range': b_range,
-    'octets': b_octets, 'enumerate': b_enumerate, 'reversed': b_reversed, 'hasattr': b_hasattr, 'zip': b_zip, 'implies': b_implies, 'ite': b_ite, 'repr': b_repr,
+    'octets': b_octets, 'super': b_super, 'sum': b_sum, 'enumerate': b_enumerate, 'reversed': b_reversed, 'hasattr': b_hasattr, 'zip': b_zip, 'implies': b_implies, 'ite': b_ite, 'repr': b_repr,
 }
 
 
@@ -792,6 +805,22 @@ def pyobj_attr(eng, base, attr):
         raise_unsupported('class %s has no attribute %s' % (ci.name, attr))
     if k == 'extern':
         return PyObj('extern', base.payload + '.' + attr)
+    if k == 'super':
+        ci, selfv = base.payload
+        mod = ci.module
+        seen = set()
+        cur = ci
+        while cur is not None and cur.name not in seen:
+            seen.add(cur.name)
+            nxt = None
+            for b in cur.bases:
+                if b in mod.classes:
+                    nxt = mod.classes[b]
+                    break
+            cur = nxt
+            if cur is not None and attr in cur.methods:
+                return PyObj('bound', cur.methods[attr], selfv)
+        raise_unsupported('super().%s: no base class of %s in its module defines it' % (attr, ci.name))
     if k == 'excclass' and attr == 'raise_for_errno' and base.payload == 'BrokerResponseError':
         return PyObj('builtin', b_raise_for_errno)
     if k == 'type':
